@@ -118,11 +118,23 @@ def observe_wrappers(b):
     return out
 
 
-def run_project(d, name, files, mode="none", project="src", extra_cfg=None, keep=False, expect_parse=True):
+def run_project(d, name, files, mode="none", project="src", extra_cfg=None, keep=False, expect_parse=True, delivery="standalone"):
+    """delivery: how settings other than flags reach the tool - "standalone" (a -c file with snake_case keys holding
+    project / output / library and extra_cfg), "tauri_conf" (plugins.typegen of a discovered tauri.conf.json,
+    camelCase keys).  Without extra_cfg the three basic settings are flags and there is no file."""
     root = os.path.join(d, name)
     shutil.rmtree(root, ignore_errors=True)
     rustgen.write_project(root, files)
-    if extra_cfg is not None:
+    if extra_cfg is not None and delivery == "tauri_conf":
+        def camel(k):
+            parts = k.split("_")
+            return parts[0] + "".join(x.capitalize() for x in parts[1:])
+        tg = {"projectPath": project, "outputPath": "out", "validationLibrary": mode}
+        tg.update({camel(k): v for k, v in extra_cfg.items()})
+        with open(os.path.join(root, "tauri.conf.json"), "w") as f:
+            json.dump({"productName": "case", "plugins": {"typegen": tg}}, f, indent=1)
+        res = runner.generate(root, project=None, out=None, mode=None)
+    elif extra_cfg is not None:
         with open(os.path.join(root, "cfg.json"), "w") as f:
             f.write(rustgen.standalone_config(project, "out", mode, **extra_cfg))
         res = runner.generate(root, project=None, out=None, mode=None, config="cfg.json")
